@@ -9,6 +9,12 @@ Lemma c12_fp_seqgen_channel : seqgen_channel_body = seqgen_channel_body_ref.
 Proof. vm_compute. reflexivity. Qed.
 Lemma c12_fp_seqgen_rec : seqgen_rec_body = seqgen_rec_body_ref.
 Proof. vm_compute. reflexivity. Qed.
+(* since d045e4b: the orders are generated in the goroutine of the caller - the
+   goroutine started by SequenceGeneratorChannel only streams them and never
+   touches a random source (the generator's draws and the consumer's draws on
+   cost ties are phases of one goroutine: the hypothesis of C12_deterministic) *)
+Lemma c12_no_random_in_seqgen_goroutine : goroutine_calls "Random" seqgen_channel_body = false.
+Proof. vm_compute. reflexivity. Qed.
 Lemma c12_fp_consumer : best_move_multi_body = best_move_multi_body_ref.
 Proof. vm_compute. reflexivity. Qed.
 
